@@ -94,7 +94,9 @@ Step(Lg, ev) ==
          IN [L1 EXCEPT !.ins = ins2, !.nput = @ + 1, !.last = "put",
                        !.toks = IF ev.tok \in 1..Len(@) THEN SetTok(@, ev.tok, "used") ELSE @,
                        !.capNow = @ \/ full,
-                       !.acts = IF c.kind = "fleet" /\ full /\ @[Len(@)] < ev.t THEN Append(@, ev.t) ELSE @]
+                       \* reaching capacity is an activation of its own, also in an instant that already had one
+                       \* (the timer expired and sent a partial batch, then a put fills the fleet: it departs again at once)
+                       !.acts = IF c.kind = "fleet" /\ full THEN Append(@, ev.t) ELSE @]
     [] ev.op = "get" /\ ev.res = "item" ->
          [L1 EXCEPT !.ins = SelectSeq(@, LAMBDA x : x.id # ev.ri), !.got = @ \cup {ev.ri}, !.last = "get",
                     !.toks = IF ev.tok \in 1..Len(@) THEN SetTok(@, ev.tok, "used") ELSE @]
